@@ -11,7 +11,7 @@ func init() {
 		ID: "C16",
 		Rule: "rapid histories of the world machine over many dogfood epochs (minute identifier, block steps from seconds to multi-epoch gaps) weighted to undelegations, opt-outs and key replacements; " +
 			"non-trivial = at least 3 queue entries of at least 2 kinds (hold / opt-out / key pruning), registered in at least 2 different epochs, were released; distinct = hash of the (kind, outcome) sequence",
-		Gen:        GenOpts{Weights: w, HostilePct: 3, ExtremePct: 0, Anchor: true, Tempos: []int{8, 25, 70}, CapBits: 90, ClampBits: 50},
+		Gen:        GenOpts{Weights: w, HostilePct: 3, ExtremePct: 0, Anchor: true, Tempos: []int{8, 25, 70}, CapBits: 90, ClampBits: 40},
 		MinSteps:   30,
 		MaxSteps:   90,
 		Config:     worldConfig,
